@@ -22,7 +22,7 @@ from pbt.core import Collector, HarnessError, mksig
 
 ID = "C08"
 RULE = ("(a) Hypothesis-generated neutral statements (select/insert/update/delete, joins, subqueries in FROM/IN/select, CTEs, set operations, CASE, functions) rendered "
-        "under all 30 ordered class pairs and with generic-built inner queries; (b) enumerated matrix: 9 sensitive terms x 12 positions (9 nesting positions, UPDATE SET, and the plain value in UPDATE SET / INSERT VALUES) x 6 classes x "
+        "under all 30 ordered class pairs and with generic-built inner queries; (b) enumerated matrix: 10 sensitive terms x 12 positions (9 nesting positions, UPDATE SET, and the plain value in UPDATE SET / INSERT VALUES) x 6 classes x "
         "{same, generic} inner class x {inline, parameterised}. Non-trivial = nesting depth >= 2 or a sensitive term below a nesting construct; distinct = distinct case.")
 ASSUMPTIONS = [
     "convention table (DESIGN.md Appendix C): quotes, placeholders, boolean / array / interval forms, set-operand brackets (MySQL, SQLite bare), GROUP BY alias policy (MSSQL, Oracle re-render)",
@@ -199,6 +199,7 @@ TERMS = {
     "bool_plain": ["raw", True],
     "array": ["array", [["raw", 1], ["raw", 2]]],
     "array_empty": ["array", []],
+    "array_single": ["array", [["raw", 7]]],
     "interval": ["interval", {"days": 2, "hours": 3}],
     "tz_time": ["vw", TZT],
     "string_bs": ["vw", ["raw", "a\\b'c"]],
@@ -301,6 +302,12 @@ def expected_form(cls, term_name, par, sql_values):
         if cls == "postgresql":
             return lambda ts: [t.key for t in ts] == [("word", "ARRAY"), ("punct", "["), ("num", "1"), ("punct", ","), ("num", "2"), ("punct", "]")], "ARRAY[1,2]"
         return lambda ts: [t.key for t in ts] == [("punct", "["), ("num", "1"), ("punct", ","), ("num", "2"), ("punct", "]")], "[1,2]"
+    if term_name == "array_single":
+        if par:
+            return lambda ts: len(ts) == 1 and is_ph(ts[0]), "one placeholder for the whole array"
+        if cls == "postgresql":
+            return lambda ts: [t.key for t in ts] == [("word", "ARRAY"), ("punct", "["), ("num", "7"), ("punct", "]")], "ARRAY[7]"
+        return lambda ts: [t.key for t in ts] == [("punct", "["), ("num", "7"), ("punct", "]")], "[7]"
     if term_name == "array_empty":
         if par:
             return lambda ts: len(ts) == 1 and is_ph(ts[0]), "placeholder"
@@ -433,7 +440,8 @@ def check_cell(cls, pos, term_name, inner, par):
 
 def ddl_cases():
     for cls in CTXS:
-        for name in ("create_columns", "create_as_select", "create_temporary_unique", "drop", "drop_if_exists", "drop_schema_table"):
+        for name in ("create_columns", "create_as_select", "create_temporary_unique", "drop", "drop_if_exists", "drop_schema_table",
+                     "table_factory_select", "tables_factory_select", "tables_factory_update", "tables_factory_insert"):
             yield {"mode": "ddl", "cls": cls, "name": name}
 
 
@@ -454,6 +462,15 @@ def build_ddl(cls, name):
         return Q.drop_table(P.Table("n")).if_exists()
     if name == "drop_schema_table":
         return Q.drop_table(P.Table("n", schema="s c"))
+    # tables made by the class's own factories start statements of that class
+    if name == "table_factory_select":
+        return Q.Table("Na me").select("a", "b").where(P.Field("a") == "v")
+    if name == "tables_factory_select":
+        return Q.Tables("x", ("Na me", "al"))[1].select("a")
+    if name == "tables_factory_update":
+        return Q.Tables("x", "Na me")[1].update().set("a", 1)
+    if name == "tables_factory_insert":
+        return Q.Tables("x", "Na me")[0].insert(1, "v")
     raise HarnessError(name)
 
 
